@@ -1,12 +1,12 @@
-CONSTANTS Tasks = {t1, t2, t3, t4}  MaxOps = 1  YieldSet = TRUE  TSO = FALSE  Bug = "none"  RelPlain = FALSE  Nb0 = 7  EnvNb = FALSE
+CONSTANTS Tasks = {t1, t2, t3, t4}  MaxOps = 1  YieldSet = TRUE  TSO = FALSE  Bug = "none"  RelPlain = FALSE  Nb0 = 7  EnvNb = FALSE  WordMod = 0
 CONSTANT Prog <- ExtractedProg  EntryAcq <- ExtractedEntryAcq  EntryTry <- ExtractedEntryTry  EntryRel <- ExtractedEntryRel
 SPECIFICATION Spec
 INVARIANT MutualExclusion
-INVARIANT HeldMeansLocked
-INVARIANT FreeWhenIdle
+INVARIANT TryHonestWhenAlone
 INVARIANT Visibility
 INVARIANT EntrySeesAll
 INVARIANT NoWildAccess
 INVARIANT NeighbourIntact
+INVARIANT TryFailsClean
 CHECK_DEADLOCK FALSE
 SYMMETRY Symm
